@@ -1339,18 +1339,105 @@ pub fn c12_case(rng: &mut Rng, st: &mut Stats) -> CaseOutcome {
     CaseOutcome::Ok
 }
 
+/// C12, "inputs scanned earlier" / "a Scanner can be reused for any number of inputs": one buffer
+/// is refilled in place with equally long contents and scanned again and again by iterators of one
+/// Scanner (some dropped mid-scan); every history must equal its solo replay on a fresh uncached
+/// scanner over a separate copy of the content.
+pub fn c12_reuse_case(rng: &mut Rng, st: &mut Stats) -> CaseOutcome {
+    let mut p = GenParams::default();
+    p.max_nodes = 8;
+    let la_pct = if rng.chance(1, 3) { 25 } else { 0 };
+    let cfg = gen_multi_mode(rng, &p, la_pct, 3);
+    if !guard_roundtrip(&cfg) {
+        return CaseOutcome::Skipped;
+    }
+    let res_refs = cfg.all_res();
+    // contents of equal byte length: the first one generated, the others shuffled/padded to fit
+    let first = gen_input(rng, &res_refs, &p.letters, 30);
+    let target_len = first.len();
+    let rounds = rng.range(2, 4);
+    let mut contents: Vec<String> = vec![first.clone()];
+    for _ in 1..rounds {
+        let mut c: String = if rng.chance(1, 2) {
+            let mut cs: Vec<char> = first.chars().collect();
+            rng.shuffle(&mut cs);
+            cs.into_iter().collect()
+        } else {
+            gen_input(rng, &res_refs, &p.letters, 30)
+        };
+        while c.len() > target_len {
+            c.pop();
+        }
+        while c.len() < target_len {
+            c.push(*rng.pick(&['a', 'b', 'c', ' ']));
+        }
+        contents.push(c);
+    }
+    let hp = HistParams {
+        max_ops: 20,
+        n_modes: cfg.modes.len(),
+        allow_set_offset: true,
+        allow_beyond: false,
+        allow_set_mode: true,
+        allow_advance: true,
+        allow_peek: true,
+        allow_position: true,
+    };
+    let plans: Vec<Vec<Op>> = contents.iter().map(|c| gen_history(rng, c, &hp)).collect();
+    let case = || json!({"kind": "c12_reuse", "cfg": cfg, "patterns": cfg.describe(), "contents": contents, "plans": plans});
+    let cached = rng.chance(1, 2);
+    let scanner = match build_any(&cfg, cached) {
+        Ok(s) => s,
+        Err(e) => return CaseOutcome::Violated(Violation::new(e, case())),
+    };
+    let mut buffer = String::with_capacity(target_len + 8);
+    for (k, (content, ops)) in contents.iter().zip(plans.iter()).enumerate() {
+        buffer.clear();
+        buffer.push_str(content);
+        let got = match run_history(&scanner, &buffer, ops) {
+            Ok(o) => o,
+            Err((i, pm)) => return CaseOutcome::Violated(Violation::new(format!("panic in round {} op #{}: {}", k, i, pm), case())),
+        };
+        let fresh = match build_any(&cfg, false) {
+            Ok(s) => s,
+            Err(e) => return CaseOutcome::Violated(Violation::new(e, case())),
+        };
+        let copy = content.clone();
+        let solo = match run_history(&fresh, &copy, ops) {
+            Ok(o) => o,
+            Err((i, pm)) => return CaseOutcome::Violated(Violation::new(format!("panic in solo replay round {} op #{}: {}", k, i, pm), case())),
+        };
+        st.count("buffer_reuse_rounds_compared");
+        if got != solo {
+            let i = got.iter().zip(solo.iter()).position(|(a, b)| a != b).unwrap_or(0);
+            return CaseOutcome::Violated(Violation::new(
+                format!(
+                    "round {} over the refilled buffer {:?}: operation #{} ({:?}) returned {:?}, the same calls on a fresh scanner over a copy of that content return {:?} (contents scanned earlier in the same buffer: {:?})",
+                    k, content, i, ops[i], got[i], solo[i], &contents[..k]
+                ),
+                case(),
+            ));
+        }
+    }
+    st.nontrivial(hash_of(&(&cfg, &contents, &plans)));
+    CaseOutcome::Ok
+}
+
 pub fn c12(tier: Tier) -> i32 {
     let ctx = Ctx::new("C12", tier, "exploration");
     let n = ctx.scale(15_000, 1_000_000);
-    let res = run_cases(&ctx, 1, n, |rng, _i, st| c12_case(rng, st));
+    let mut res = run_cases(&ctx, 1, n, |rng, _i, st| c12_case(rng, st));
+    let n2 = ctx.scale(10_000, 500_000);
+    res.merge(run_cases(&ctx, 2, n2, |rng, _i, st| c12_reuse_case(rng, st)));
     let report = Report::new(
-        "2-5 iterators over 1-3 inputs created lazily from one Scanner or from two build() results of one configuration (shared cached compilation), random interleavings of all iterator operations (next, peek_n, advance_to, set_offset, set_mode, position, current_mode), early drops, Scanner::set_mode between and during iterations. Oracle: the projection of the interleaved history onto each iterator must equal the solo replay of that projection on a fresh uncached scanner (all outputs compared). Distinct by hash of (configuration, inputs, plans, schedule).",
+        "stream 2: one buffer refilled in place with 2-4 equally long contents and scanned by successive iterators of one Scanner (random histories, some ending mid-scan), each compared with its solo replay on a fresh uncached scanner over a separate copy. stream 1: 2-5 iterators over 1-3 inputs created lazily from one Scanner or from two build() results of one configuration (shared cached compilation), random interleavings of all iterator operations (next, peek_n, advance_to, set_offset, set_mode, position, current_mode), early drops, Scanner::set_mode between and during iterations. Oracle: the projection of the interleaved history onto each iterator must equal the solo replay of that projection on a fresh uncached scanner (all outputs compared). Distinct by hash of (configuration, inputs, plans, schedule).",
     )
     .floor("step_with_two_or_more_live_iterators", 50_000)
     .floor("step_with_live_iterators_in_different_modes", 10_000)
     .floor("iterator_dropped_mid_scan", 2000)
     .floor("scanner_set_mode_during_iterations", 2000)
     .floor("projections_compared", 15_000)
-    .floor("projections_compared_without_peeks", 10_000);
+    .floor("projections_compared_without_peeks", 10_000)
+    .floor("buffer_reuse_rounds_compared", 15_000);
     finish(&ctx, res, report)
 }
